@@ -2982,7 +2982,7 @@ class Mailbox:
         - `name`: The name of the mailbox to delete
         - `server`: The user server object
         """
-        if name == "inbox":
+        if name.lower() == "inbox":
             raise InvalidMailbox("You are not allowed to delete the inbox")
 
         mbox = await server.get_mailbox(name)
